@@ -130,6 +130,100 @@ func c15(r *Report) {
 			}
 		}
 
+		// a body is only ever replaced by something built from itself: a wrapper around the old
+		// body, or a reader over the bytes read from it - never by a constant such as http.NoBody
+		// (the test that is meant to spot "no body" also matches a body of unknown length)
+		nb := 0
+		for _, f := range w.Funcs(loggerPkgs...) {
+			for _, in := range instrs(f) {
+				st, isSt := in.(*ssa.Store)
+				if !isSt || msgFieldAddr(st.Addr, "Body") == nil {
+					continue
+				}
+				nb++
+				ordinal := 0
+				for _, in2 := range instrs(f) {
+					if st2, isSt2 := in2.(*ssa.Store); isSt2 && msgFieldAddr(st2.Addr, "Body") != nil {
+						ordinal++
+						if st2 == st {
+							break
+						}
+					}
+				}
+				derived := true
+				for _, l := range resolveAll(st.Val) {
+					if mi, isMi := l.(*ssa.MakeInterface); isMi {
+						l = mi.X
+					}
+					var from func(v ssa.Value, depth int) bool
+					from = func(v ssa.Value, depth int) bool {
+						if depth > 8 {
+							return false
+						}
+						for x := range w.backSlice(v, flowOpt{Fields: true}) {
+							if ld, isLd := x.(*ssa.UnOp); isLd && ld.Op == token.MUL && msgFieldAddr(ld.X, "Body") != nil {
+								return true
+							}
+							// readers over the bytes that were read from the body
+							if c, isC := x.(*ssa.Call); isC && x != v {
+								switch calleeName(c) {
+								case "io/ioutil.NopCloser", "io.NopCloser", "bytes.NewReader", "bytes.NewBuffer", "io.MultiReader", "bufio.NewReader", "io/ioutil.ReadAll", "io.ReadAll", "io.TeeReader":
+									for _, a := range c.Call.Args {
+										if from(a, depth+1) {
+											return true
+										}
+									}
+								}
+							}
+							if c, isC := x.(*ssa.Call); isC && x != v && (calleeName(c) == "(*bytes.Buffer).Bytes" || calleeName(c) == "(*bytes.Buffer).String") && from(c, depth+1) {
+								return true
+							}
+							if ex, isEx := x.(*ssa.Extract); isEx && x != v {
+								if c, isC := ex.Tuple.(*ssa.Call); isC && (calleeName(c) == "io/ioutil.ReadAll" || calleeName(c) == "io.ReadAll") && from(c.Call.Args[0], depth+1) {
+									return true
+								}
+							}
+						}
+						if c, isC := v.(*ssa.Call); isC {
+							switch calleeName(c) {
+							case "io/ioutil.NopCloser", "io.NopCloser", "bytes.NewReader", "bytes.NewBuffer", "io.MultiReader", "bufio.NewReader", "io.TeeReader":
+								for _, a := range c.Call.Args {
+									if from(a, depth+1) {
+										return true
+									}
+								}
+							}
+						}
+						if ex, isEx := v.(*ssa.Extract); isEx {
+							if c, isC := ex.Tuple.(*ssa.Call); isC && (calleeName(c) == "io/ioutil.ReadAll" || calleeName(c) == "io.ReadAll") {
+								return from(c.Call.Args[0], depth+1)
+							}
+						}
+						// the contents of a buffer the body was drained into
+						if c, isC := v.(*ssa.Call); isC && (calleeName(c) == "(*bytes.Buffer).Bytes" || calleeName(c) == "(*bytes.Buffer).String") {
+							for _, fill := range plainCalls(c.Parent(), "(*bytes.Buffer).ReadFrom", "io.Copy", "io.CopyBuffer") {
+								dst := fill.Call.Args[0]
+								if mi, isMi := dst.(*ssa.MakeInterface); isMi {
+									dst = mi.X
+								}
+								if pathOf(dst) == pathOf(c.Call.Args[0]) && from(fill.Call.Args[1], depth+1) {
+									return true
+								}
+							}
+						}
+						return false
+					}
+					if !from(l, 0) {
+						derived = false
+					}
+				}
+				r.Touch(f)
+				r.Sites++
+				r.Decide("flow", fmt.Sprintf("%s: Body store #%d replaces the body by something built from it", fnName(f), ordinal), derived, "every value stored derives from the message's own Body", "the body is replaced by a value that does not come from the old body (http.NoBody, an empty reader): when the condition guarding it also matches a message that has a body (unknown length, no transfer coding), that body is dropped from the forwarded message", st.Pos())
+			}
+		}
+		r.Decide("flow", "loggers replace message bodies", nb >= 4, fmt.Sprintf("%d stores to Body", nb), "fewer stores to Body than confirmed on the pinned tree", token.NoPos)
+
 		// any other way of draining a message body is not an accepted idiom
 		for _, f := range w.Funcs(loggerPkgs...) {
 			for _, ci := range calls(f) {
@@ -252,9 +346,13 @@ func c15(r *Report) {
 		for _, n := range []string{"Logger.ModifyRequest", "Logger.ModifyResponse"} {
 			errorsReturnedRule(r, r.W.Fn("martianlog", n), true)
 		}
-		for _, n := range []string{"MessageView.SnapshotRequest", "MessageView.SnapshotResponse", "MessageView.BodyReader"} {
+		for _, n := range []string{"MessageView.SnapshotRequest", "MessageView.SnapshotResponse"} {
 			errorsReturnedRule(r, r.W.Fn("messageview", n), false)
 		}
+		// a reader over a snapshot fails only where a decoder refuses its input when it is set up
+		// (gzip's header): a new way to fail - a sniffing read that hits the end of an empty body -
+		// turns a message the proxy forwards untouched into one with a Warning header
+		errorsReturnedRule(r, r.W.Fn("messageview", "MessageView.BodyReader"), true)
 
 		for _, pkg := range loggerPkgs {
 			bad := 0
